@@ -270,6 +270,11 @@ Theorem C04_async_fusedev_run : forall at_len ops st, f_wf st ->
   (forall w' x, In w' (f_ws (snd (afrun at_len ops st))) -> f_owns w' x -> exists w, In w (f_ws st) /\ f_owns w x) /\
   (exists ps, f_pkts (snd (afrun at_len ops st)) = f_pkts st ++ ps /\ (List.length ps <= List.length ops)%nat).
 Proof. exact afrun_post. Qed.
+(* FuseDevWriter::write_all_from (loop over write_from) and flush, mixed with everything else ([xfrun]): len <= cap for
+   every writer, nothing outside the reply buffer written, windows never grow.  (On an unbuffered writer a source that
+   ends early makes the second loop iteration hit the assert!: the model returns RPanic there, as the code does.) *)
+Theorem C04_fusedev_xrun : forall at_len ops st, f_wf st -> x_step_post st (snd (xfrun at_len ops st)).
+Proof. exact xfrun_post. Qed.
 Example C04_async_nonvacuous :
   fa_regular (FAWriteFromAt 0 2 (Some [7; 8])) = true /\
   (* at the start of the buffer: the byte buffered before is lost *)
@@ -391,6 +396,7 @@ Print Assumptions C04_async_fusedev.
 Print Assumptions C04_async_fusedev_refuted_iff.
 Print Assumptions C04_async_fusedev_write_all_empty.
 Print Assumptions C04_async_fusedev_run.
+Print Assumptions C04_fusedev_xrun.
 Print Assumptions C04_adapter.
 Print Assumptions C04_adapter_view_all.
 Print Assumptions C04_adapter_refuted_iff.
